@@ -55,7 +55,8 @@ def gen_card(rng, i, thorough):
         order = (int(rng.integers(1, 3)), 1)
     method = ["iterate-exact", "truncated", "iterate-expanded", "decompose-exact", "perturbative-exact"][int(rng.integers(5))]
     if order[1] > 0:
-        method = ["iterate-exact", "truncated"][int(rng.integers(2))]
+        rng.integers(2)  # (keeps the random stream of earlier versions)
+        method = "iterate-exact"  # the only method implemented with QED; others are refused cleanly
     nt = int(rng.integers(1, 4))
     pool = [(1.3, 3), (2.0, 4), (3.0, 4), (6.0, 5), (10.0, 5), (50.0, 5), (200.0, 6)]
     idx = sorted(rng.choice(len(pool), size=nt, replace=False).tolist())
